@@ -205,7 +205,9 @@ func (p *FloatingIPPlugin) syncPodIPsIntoDB() {
 		return
 	}
 	for i := range pods {
-		if err := p.syncPodIP(pods[i]); err != nil {
+		// the list is a snapshot: by the time this pass gets the lock of a pod it may have been deleted and its ip
+		// released, only sync a pod which is still in the cache
+		if err := p.doSyncPodIP(pods[i], true); err != nil {
 			glog.Warning(err)
 		}
 	}
@@ -215,6 +217,11 @@ func (p *FloatingIPPlugin) syncPodIPsIntoDB() {
 // syncPodIP sync pod ip with ipam, if the pod has ipinfos annotation and the ip is unallocated in ipam, allocate the ip
 // to the pod
 func (p *FloatingIPPlugin) syncPodIP(pod *corev1.Pod) error {
+	return p.doSyncPodIP(pod, false)
+}
+
+// doSyncPodIP implements syncPodIP, if mustBeCached is true the pod is skipped unless it is still in the pod cache
+func (p *FloatingIPPlugin) doSyncPodIP(pod *corev1.Pod, mustBeCached bool) error {
 	if pod.Status.Phase != corev1.PodRunning {
 		return nil
 	}
@@ -225,6 +232,8 @@ func (p *FloatingIPPlugin) syncPodIP(pod *corev1.Pod) error {
 	// the pod may have been deleted and a pod with the same name created while we were waiting for the lock,
 	// never allocate the ip of a previous pod to the key of the current one
 	if cur, err := p.PodLister.Pods(pod.Namespace).Get(pod.Name); err == nil && cur.GetUID() != pod.GetUID() {
+		return nil
+	} else if err != nil && mustBeCached {
 		return nil
 	}
 	keyObj, err := util.FormatKey(pod)
